@@ -1,5 +1,5 @@
 """Front end driver: synthesises clang flags for votca units and runs bin/vsa-export in parallel."""
-import os, re, json, subprocess, hashlib, tempfile, shutil, sys, time
+import os, glob, re, json, subprocess, hashlib, tempfile, shutil, sys, time
 from concurrent.futures import ThreadPoolExecutor
 
 VERIF = os.path.dirname(os.path.dirname(os.path.abspath(__file__)))
@@ -73,17 +73,33 @@ def _one(unit, names, tag):
     return d
 
 
-def export(units, names=None, jobs=16, tag=""):
-    """units: list of absolute paths (under /repo or /verif/hosts). Returns {unit: facts}."""
+LAST_SKIPPED = []
+
+
+def export(units, names=None, jobs=16, tag="", skip_unavailable=False):
+    """units: list of absolute paths (under /repo or /verif/hosts). Returns {unit: facts}.
+    skip_unavailable: a unit that includes a header of an optional third-party package that is not installed here (the build of this tree does
+    not compile it either) is left out and listed in LAST_SKIPPED instead of breaking the analysis."""
     if not os.path.exists(EXPORTER):
         raise AnalysisBroken("bin/vsa-export missing: run ./setup.sh")
     ensure_gen()
     for u in units:
         if not os.path.exists(u):
             raise AnalysisBroken("anchor unit vanished: " + u)
+    del LAST_SKIPPED[:]
     with ThreadPoolExecutor(max_workers=jobs) as ex:
         futs = {u: ex.submit(_one, u, names, tag) for u in units}
-        return {u: f.result() for u, f in futs.items()}
+        out = {}
+        for u, f in futs.items():
+            try:
+                out[u] = f.result()
+            except AnalysisBroken as e:
+                m = re.search(r"fatal error: '([^']+)' file not found", str(e))
+                if skip_unavailable and m and not os.path.exists(os.path.join(REPO, m.group(1))) and not glob.glob(os.path.join(REPO, "*", "include", m.group(1))):
+                    LAST_SKIPPED.append((u, m.group(1)))
+                    continue
+                raise
+        return out
 
 
 def repo(path):
